@@ -15,21 +15,21 @@ import (
 
 // StructRec: input bytes + observation of Decode (then Encode) and DecodeStrict (then Encode).
 type StructRec struct {
-	K     string `json:"k"`
-	Name  string `json:"name"`
-	D     string `json:"d"`
-	Gen   string `json:"gen"` // how the input was produced
-	St    int    `json:"st"`  // Decode: 0 ok, 1 error, 2 panic, 3 timeout
-	Ec    int    `json:"ec"`
-	Re    string `json:"re"` // re-encoding of the decoded value
-	Sst   int    `json:"sst"`
-	Sec   int    `json:"sec"`
-	Sre   string `json:"sre"`
+	K    string `json:"k"`
+	Name string `json:"name"`
+	D    string `json:"d"`
+	Gen  string `json:"gen"` // how the input was produced
+	St   int    `json:"st"`  // Decode: 0 ok, 1 error, 2 panic, 3 timeout
+	Ec   int    `json:"ec"`
+	Re   string `json:"re"` // re-encoding of the decoded value
+	Sst  int    `json:"sst"`
+	Sec  int    `json:"sec"`
+	Sre  string `json:"sre"`
 	// when Decode succeeded: fixed point Re2 of Encode.Decode starting at Re (St2 = 0 iff reached), DecodeStrict of it
-	St2  int    `json:"st2"`
-	Re2  string `json:"re2"`
-	Sst2 int    `json:"sst2"`
-	Sre2 string `json:"sre2"`
+	St2   int    `json:"st2"`
+	Re2   string `json:"re2"`
+	Sst2  int    `json:"sst2"`
+	Sre2  string `json:"sre2"`
 	Panic string `json:"panic,omitempty"`
 }
 
@@ -229,6 +229,70 @@ func Entries() []*c08reg.Entry {
 		out[i] = &c08reg.Entries[i]
 	}
 	return out
+}
+
+// ---- hostile varints / length prefixes
+var evilVarints = [][]byte{
+	cx.Uvarint(1<<31 - 1), cx.Uvarint(1 << 31), cx.Uvarint(1<<32 + 5), cx.Uvarint(1<<63 - 1), cx.Uvarint(1 << 63), cx.Uvarint(1<<64 - 1),
+	{0xff, 0xff, 0xff, 0xff, 0xff, 0xff, 0xff, 0xff, 0xff, 0x02},
+	{0x80, 0x80, 0x80, 0x80, 0x80, 0x80, 0x80, 0x80, 0x80, 0x80, 0x80},
+	{0x80, 0x00},
+}
+
+// top-level scan of key/value pairs: replaces each length prefix / varint value by hostile ones, and the length by
+// len+1 / len+1000 (pointing past the field / the buffer)
+func VarintAttacks(d []byte) [][]byte {
+	var out [][]byte
+	i := 0
+	count := 0
+	for i < len(d) && count < 6 {
+		_, ks := uvar(d[i:])
+		if ks <= 0 {
+			break
+		}
+		wt := d[i] & 7
+		vpos := i + ks
+		v, vs := uvar(d[vpos:])
+		if vs <= 0 {
+			break
+		}
+		repl := func(nv []byte) {
+			m := append(append(append([]byte{}, d[:vpos]...), nv...), d[vpos+vs:]...)
+			out = append(out, m)
+		}
+		for _, ev := range evilVarints {
+			repl(ev)
+		}
+		if wt == 2 {
+			repl(cx.Uvarint(v + 1))
+			repl(cx.Uvarint(v + 1000))
+			repl(cx.Uvarint(uint64(len(d))))
+			if v > 0 {
+				repl(cx.Uvarint(v - 1))
+			}
+			i = vpos + vs + int(v)
+		} else {
+			i = vpos + vs
+		}
+		count++
+	}
+	return out
+}
+
+func uvar(b []byte) (uint64, int) {
+	var x uint64
+	var s uint
+	for i, c := range b {
+		if i == 10 {
+			return 0, -1
+		}
+		if c < 0x80 {
+			return x | uint64(c)<<s, i + 1
+		}
+		x |= uint64(c&0x7f) << s
+		s += 7
+	}
+	return 0, 0
 }
 
 var _ codec.EncodeDecodable
